@@ -326,13 +326,29 @@ def make_graphpart(ctx, graph, mode, weighted=False):
             checks.append(('convert_solution agrees across forms', all(x == parts[0] for x in parts) and parts[0][0] | parts[0][1] == p.V and not parts[0][0] & parts[0][1]
                            and len(parts[0][0]) == sum(1 for v in xs if v == 1)))
             dec[xs] = parts[0]
-        return p, Lq, nv, dec, checks, p.degree
+        bf = p.solve_bruteforce(A, B) if (strict and nv <= 4) else None
+        return p, Lq, nv, dec, checks, p.degree, bf
 
     def check(res):
-        p, Lq, nv, dec, checks, deg = res
+        p, Lq, nv, dec, checks, deg, bf = res
         obs = [Ob('%s #%d' % (nm, i), ok, sig=nm) for i, (nm, ok) in enumerate(checks)]
         zB = ctx.z(B)
         assume = [ctx.z(A) > zB * min(2 * deg, nv) / 8] if strict else []
+        if bf is not None:
+            okbf = isinstance(bf, tuple) and len(bf) == 2 and bf[0] | bf[1] == p.V and not (bf[0] & bf[1])
+            obs.append(Ob('solve_bruteforce returns a partition of the vertices', okbf, info={'bf': repr(bf)}))
+            if okbf:
+                def cutw(part):
+                    t = 0
+                    for (u, v) in edges:
+                        if (u in part) != (v in part): t = t + (wts[(u, v)] if weighted else 1)
+                    return ctx.z(B * t)
+                import itertools as _it
+                verts = sorted(p.V, key=repr)
+                halves = [set(c) for c in _it.combinations(verts, len(verts) // 2)] if len(verts) % 2 == 0 else []
+                obs.append(Ob('solve_bruteforce (weights above the threshold) returns a balanced partition of minimal cut',
+                              z3.Implies(z3.And(assume), z3.And(z3.BoolVal(len(bf[0]) == len(bf[1])), z3.And([cutw(bf[0]) <= cutw(h) for h in halves] or [z3.BoolVal(True)]))),
+                              info={'bf': repr(bf)}, sig='GraphPartitioning solve_bruteforce'))
         feas = lambda xs: len(dec[xs][0]) == len(dec[xs][1])
         def cost(xs):
             t = 0
@@ -368,11 +384,25 @@ def make_numpart(ctx, n, R, container):
                 vs.append(bool(p.is_solution_valid(form, spin=True)))
             valid[xs] = vs[0]
             checks.append(('is_solution_valid agrees across forms', all(v == vs[0] for v in vs)))
-        return p, Lq, valid, checks, usedef
+        bf = p.solve_bruteforce() if n <= 3 else None
+        return p, Lq, valid, checks, usedef, bf
 
     def check(res):
-        p, Lq, valid, checks, usedef = res
+        p, Lq, valid, checks, usedef, bf = res
         obs = [Ob('%s #%d' % (nm, i), ok, sig=nm) for i, (nm, ok) in enumerate(checks)]
+        if bf is not None:
+            okbf = isinstance(bf, tuple) and len(bf) == 2 and len(bf[0]) + len(bf[1]) == n
+            obs.append(Ob('solve_bruteforce splits the numbers in two', okbf, info={'bf': repr(bf)}))
+            if okbf:
+                d0 = 0
+                for x in bf[0]: d0 = d0 + x
+                for x in bf[1]: d0 = d0 - x
+                conds = []
+                for xs in itertools.product((1, -1), repeat=n):
+                    t = 0
+                    for v_, x_ in zip(s, xs): t = t + v_ * x_
+                    conds.append(ctx.z(d0 * d0) <= ctx.z(t * t))
+                obs.append(Ob('solve_bruteforce returns a partition of minimal difference', z3.And(conds), sig='NumberPartitioning solve_bruteforce'))
         def diff(xs):
             t = 0
             for v, x in zip(s, xs): t = t + v * x
@@ -410,6 +440,9 @@ def make_asc(ctx, N, clen, pbc):
                     got = p.convert_solution(form, spin=sf)
                     checks.append(('convert_solution %s %s gives the spins' % (nm, 'spin' if sf else 'bool'), list(got.values() if isinstance(got, dict) else got) == list(xs)))
                     checks.append(('is_solution_valid %s %s' % (nm, 'spin' if sf else 'bool'), bool(p.is_solution_valid(form, spin=sf)) == want_valid))
+        if 2 <= N <= 4:
+            bf = p.solve_bruteforce(pbc)
+            checks.append(('solve_bruteforce returns an aligned chain', len(bf) == N and (all(x == 1 for x in bf) or all(x == -1 for x in bf))))
         return p, Lq, checks
 
     def check(res):
